@@ -9,9 +9,9 @@ import (
 	"testing"
 	"time"
 
-	math "github.com/IBM/mathlib"
 	"github.com/IBM/TSS/mpc/bls"
 	"github.com/IBM/TSS/mpc/ps"
+	math "github.com/IBM/mathlib"
 	"pgregory.net/rapid"
 
 	"verif/core/asnmut"
@@ -32,26 +32,26 @@ const (
 )
 
 var c05Strategies = []string{
-	"honest-control",           // 0
-	"share-plus-delta",         // 1 off-polynomial share to the victims
-	"share-random",             // 2
-	"reveal-mismatch",          // 3 reveal another valid key than committed
-	"offpoly-key-consistent",   // 4 commit and reveal a key that is off the polynomial
-	"malformed-share",          // 5
-	"malformed-reveal",         // 6 (commitment matches the malformed bytes)
-	"malformed-commit",         // 7
-	"duplicate-share",          // 8 second, different share
-	"duplicate-commit",         // 9
-	"duplicate-reveal",         // 10
-	"withhold-share",           // 11 (to victims)
-	"withhold-commit",          // 12
-	"withhold-reveal",          // 13
-	"reveal-before-commit",     // 14
-	"shares-last",              // 15 shares only after commit and reveal went out
-	"copycat",                  // 16 replay an honest party's commit and reveal as own
-	"structural-share",         // 17 PS/BLS share with altered component structure
-	"structural-reveal",        // 18 key with altered component structure, commitment consistent
-	"byte-mutated-any",         // 19 byte-level mutation of any one message kind
+	"honest-control",         // 0
+	"share-plus-delta",       // 1 off-polynomial share to the victims
+	"share-random",           // 2
+	"reveal-mismatch",        // 3 reveal another valid key than committed
+	"offpoly-key-consistent", // 4 commit and reveal a key that is off the polynomial
+	"malformed-share",        // 5
+	"malformed-reveal",       // 6 (commitment matches the malformed bytes)
+	"malformed-commit",       // 7
+	"duplicate-share",        // 8 second, different share
+	"duplicate-commit",       // 9
+	"duplicate-reveal",       // 10
+	"withhold-share",         // 11 (to victims)
+	"withhold-commit",        // 12
+	"withhold-reveal",        // 13
+	"reveal-before-commit",   // 14
+	"shares-last",            // 15 shares only after commit and reveal went out
+	"copycat",                // 16 replay an honest party's commit and reveal as own
+	"structural-share",       // 17 PS/BLS share with altered component structure
+	"structural-reveal",      // 18 key with altered component structure, commitment consistent
+	"byte-mutated-any",       // 19 byte-level mutation of any one message kind
 }
 
 type c05Case struct {
@@ -108,8 +108,8 @@ func genC05(maxN int) func(t *rapid.T) c05Case {
 type c05Info struct {
 	Strategy   string
 	Results    map[int]string
-	Delivered  int  // deviating messages handed to honest backends
-	Withheld   int  // messages dropped by the strategy
+	Delivered  int // deviating messages handed to honest backends
+	Withheld   int // messages dropped by the strategy
 	Leaked     bool
 	Successes  int
 	RevealedOK bool
